@@ -33,7 +33,7 @@ ASSUMPTIONS = [
     "names removed by a mutation are not reused by another entry of a different type in the same case",
 ]
 BUDGET = {"quick": (220, 4), "thorough": (20000, 16)}
-REQUIRED = ["unchanged", "altered", "missing_file", "missing_dir", "new_file", "nested_mutation", "combined", "ignored_only", "per_file_enum"]
+REQUIRED = ["unchanged", "altered", "missing_file", "missing_dir", "new_file", "nested_mutation", "combined", "ignored_only", "per_file_enum", "trailing_slash_root"]
 
 P1 = {
     "kinds": ["create"] * 5 + ["create_sf"] * 2 + ["put_new"] * 3 + ["mkdir"],
@@ -49,6 +49,13 @@ MUT = ["overwrite_same", "overwrite_diff", "append", "truncate", "empty", "rm", 
 @st.composite
 def _scn(draw):
     scn = draw(hist.scenarios_deep(P1))
+    if draw(st.integers(0, 3)) == 0:
+        base = draw(st.sampled_from(["Clips", "s", "A"]))
+        sib = base + draw(st.sampled_from(["_proxy", "2", " b"]))
+        if not ({base, sib} & hist.top_names_used(scn)):
+            scn["tree"][base] = {"in.mov": "inside " + base}
+            scn["tree"][sib] = {"next.mov": "beside " + base, "sub": {"deeper.mov": "x"}}
+            scn["steps"] = [{"op": "create", "root": base, "formats": draw(gen.formats(2)), "flags": []}] + scn["steps"]
     scn["steps"].append({"op": "create", "root": "", "formats": draw(gen.formats(3)), "flags": []})
     m = hist.GenModel(scn["tree"])
     for s in scn["steps"]:
@@ -107,6 +114,7 @@ def _scn(draw):
     scn["mutations"] = muts
     roots = [""] + [r for r in m.roots if r]
     scn["target"] = draw(st.sampled_from(roots + [""] * len(roots)))
+    scn["slash"] = draw(st.sampled_from([False, False, True]))  # the root typed with a trailing separator
     return scn
 
 
@@ -274,11 +282,14 @@ def run_case(scn, ctx):
         A = {f for f in sealed_files if f in now_files and now_files[f] != sealed_files[f]}
         M = {f for f in sealed_files if f not in now_files} | {d for d in sealed_dirs if d not in now_dirs}
         N = {f for f in now_files if f not in sealed_files}
+        tslash = target + ("/" if scn.get("slash") else "")
+        if scn.get("slash"):
+            ctx.event("trailing_slash_root")
         for cmd in ("verify", "diff", "create"):
             if cmd == "create":
-                res = w.create(target, formats=scn["steps"][-1]["formats"])
+                res = w.create(tslash, formats=scn["steps"][-1]["formats"])
             else:
-                res = getattr(w, cmd)(target)
+                res = getattr(w, cmd)(tslash)
             check_outputs(cmd, res, target, A, M, N, ctx)
         if A:
             ctx.event("altered")
